@@ -83,6 +83,8 @@ def draw_nldf_params(rng):
         "alpha_max": rng.choice([30.0, 100.0, 300.0]),
         "inrad": rng.choice([24, 37, 50]),
         "dseed": rng.below(10**6),
+        # exponent formula of the plan stated by the caller (by default it follows the plan type)
+        "gen_formula": rng.choice([None, None, None, "etb", "zexp"]),
     }
 
 
@@ -110,6 +112,7 @@ def _make_nldfgen(p):
         nrad=p["inrad"],
         aparam=0.06,
         dparam=0.12,
+        **({"alpha_formula": p["gen_formula"]} if p.get("gen_formula") else {}),
     )
     if p["interp"] != "train_gen":
         gen.interpolator.set_coords(grids.coords)
@@ -238,7 +241,22 @@ def _draw_sdmx_params(rng):
         "cutoff": rng.choice([None, None, 1e-13, 1e-8, 1e-5, 1e-3]),
         "spread": rng.choice([1.5, 1.5, 4.0, 8.0]),
         "order": rng.choice(["random", "radial"]),
+        "itype": rng.choice(["gauss_diff", "gauss_diff", "gauss_r2"]),
+        # explicit exponent ladder of the generator instead of the one derived from the basis
+        "ladder": rng.choice([None, None, None, [0.02, 2.2, 6], [0.05, 1.8, 2], [0.01, 3.0, 12]]),  # (one exponent is rejected in Python)
     }
+
+
+def _order_points(coords, order, nprng):
+    if order in ("radial", "radial_rev", "blockwise"):
+        coords = np.ascontiguousarray(coords[np.argsort(np.linalg.norm(coords, axis=1))])
+        if order == "radial_rev":
+            coords = np.ascontiguousarray(coords[::-1])
+        elif order == "blockwise":
+            nb_ = (len(coords) + 55) // 56  # the evaluation block of the SDMX loops is 56 points
+            perm = nprng.permutation(nb_)
+            coords = np.ascontiguousarray(np.concatenate([coords[b_ * 56 : (b_ + 1) * 56] for b_ in perm]))
+    return coords
 
 
 def wl_sdmx(p):
@@ -248,18 +266,16 @@ def wl_sdmx(p):
     rng = Rng(derive("omp-sdmx", p["sseed"]))
     st = zoo.make_settings(p["kind"], rng, normalizer=False)
     mol = zoo.make_mol(p["mol"], p["basis"])
-    gen = EXXSphGenerator.from_settings_and_mol(st.sdmx_settings, p["nspin"], mol)
+    if p.get("itype", "gauss_diff") != "gauss_diff":
+        st.sdmx_settings._integral_type = p["itype"]  # (how the package's own tests select it)
+    kw = {}
+    if p.get("ladder"):
+        kw = {"alpha0": p["ladder"][0], "lambd": p["ladder"][1], "nalpha": p["ladder"][2]}
+    gen = EXXSphGenerator.from_settings_and_mol(st.sdmx_settings, p["nspin"], mol, **kw)
     phase()
     nprng = np.random.default_rng(p["dseed"])
     coords = nprng.normal(size=(p["ngrids"], 3)) * p.get("spread", 1.5)
-    if p.get("order") in ("radial", "radial_rev", "blockwise"):
-        coords = np.ascontiguousarray(coords[np.argsort(np.linalg.norm(coords, axis=1))])
-        if p["order"] == "radial_rev":
-            coords = np.ascontiguousarray(coords[::-1])
-        elif p["order"] == "blockwise":
-            nb_ = (len(coords) + 55) // 56  # the evaluation block of the SDMX loops is 56 points
-            perm = nprng.permutation(nb_)
-            coords = np.ascontiguousarray(np.concatenate([coords[b_ * 56 : (b_ + 1) * 56] for b_ in perm]))
+    coords = _order_points(coords, p.get("order"), nprng)
     nao = mol.nao_nr()
     out = {}
     nd = p["nset"] * p["nspin"]
@@ -286,6 +302,7 @@ def draw_debug_params(rng):
         "n": _size(rng, [1, 2, 3, 7, 16, 33, 64], 80),
         "m": _size(rng, [1, 5, 16, 40, 97], 120),
         "dseed": rng.below(10**6),
+        "floor": bool(rng.chance(0.6)),
     }
 
 
@@ -295,9 +312,12 @@ def wl_debug_numint(p):
     nprng = np.random.default_rng(p["dseed"])
     n, m = p["n"], p["m"]
     rho = _rho_data(nprng, 5, n)
-    rho[0] += 1e-6
     vvrho = _rho_data(nprng, 5, m)
-    vvrho[0] += 1e-6
+    if p.get("floor", True):
+        rho[0] += 1e-6
+        vvrho[0] += 1e-6
+    # (without the floor, tail points below the routine's own density threshold are dropped
+    # before the C call: the counts it gets vary, down to very few points)
     coords = nprng.normal(size=(n, 3))
     vvcoords = nprng.normal(size=(m, 3))
     vvw = np.abs(nprng.normal(size=m))
@@ -743,10 +763,15 @@ def draw_legacy_params(rng):
         "nalpha": rng.choice([1, 2, 5]),
         "nj": rng.choice([1, 2, 3]),
         "mol": rng.choice(TINY_MOLS),
-        "basis": rng.choice(["sto-3g", "6-31g"]),
+        "basis": rng.choice(["sto-3g", "6-31g", "ano@2s2p", "cc-pvdz"]),
         "sseed": rng.below(10**6),
         "kind": rng.choice(SDMX_KINDS),
         "dseed": rng.below(10**6),
+        # the screening threshold of eval_conv_ao_fast (skip branch of SDMXeval_sph_iter)
+        "cutoff": rng.choice([None, None, 1e-8, 1e-5, 1e-3]),
+        "spread": rng.choice([1.5, 4.0, 8.0, 16.0]),
+        "order": rng.choice(["random", "radial", "radial_rev", "blockwise"]),
+        "itype": rng.choice(["gauss_diff", "gauss_diff", "gauss_r2"]),
     }
 
 
@@ -870,11 +895,14 @@ def wl_legacy_sdmx(p):
     mol = zoo.make_mol(p["mol"], p["basis"])
     r = np.random.default_rng(p["dseed"])
     ng = p["ngrids"]
-    coords = r.normal(size=(ng, 3)) * 1.5
+    coords = r.normal(size=(ng, 3)) * (p.get("spread", 1.5) if p.get("cutoff") else 1.5)
+    coords = _order_points(coords, p.get("order", "random") if p.get("cutoff") else "random", r)
     out = {}
+    if p.get("itype", "gauss_diff") != "gauss_diff":
+        st.sdmx_settings._integral_type = p["itype"]  # (how the package's own tests select it)
     gen = sdmx_slow.EXXSphGenerator.from_settings_and_mol(st.sdmx_settings, 1, mol)
     for deriv in ([0, 1] if gen.has_l1 else [0]):
-        cao = sdmx_slow.eval_conv_ao_fast(gen.plan, mol, coords, deriv=deriv)
+        cao = sdmx_slow.eval_conv_ao_fast(gen.plan, mol, coords, deriv=deriv, cutoff=p.get("cutoff"))
         out["conv_ao_fast.deriv%d" % deriv] = np.array(cao)
     gen2 = EXXSphGenerator.from_settings_and_mol(st.sdmx_settings, 1, mol)
     fcoords = np.asfortranarray(coords)
